@@ -641,6 +641,14 @@ fn find_identifier_end_x86_64(input: &str, offset: usize) -> usize {
     type RealFn = unsafe fn(&str, usize) -> usize;
     static FN: AtomicPtr<()> = AtomicPtr::new(detect as Fn);
 
+    // Under the verification guard a test harness can hide (never invent) CPU features.
+    #[cfg(pasfmt_verif)]
+    macro_rules! is_x86_feature_detected {
+        ($feature:tt) => {
+            std::is_x86_feature_detected!($feature) && crate::verif_hooks::feature_allowed($feature)
+        };
+    }
+
     fn detect(input: &str, offset: usize) -> usize {
         let fun: RealFn = {
             if is_x86_feature_detected!("avx2") {
@@ -651,12 +659,18 @@ fn find_identifier_end_x86_64(input: &str, offset: usize) -> usize {
                 find_identifier_end_generic as RealFn
             }
         };
+        #[cfg(pasfmt_verif)]
+        crate::verif_hooks::yield_point("lexer_dispatch_before_store");
         FN.store(fun as Fn, Ordering::Relaxed);
         // SAFETY: we just checked that the required intrinsics are supported.
         unsafe { fun(input, offset) }
     }
 
     let fun = FN.load(Ordering::Relaxed);
+    #[cfg(pasfmt_verif)]
+    if fun == detect as Fn {
+        crate::verif_hooks::yield_point("lexer_dispatch_unresolved");
+    }
 
     // SAFETY: requires that
     // * `fun` is a valid instance of both types
